@@ -31,7 +31,9 @@ def generate_toy_o(config, N=1000, force=True, max_N=100000):
         n_gen = data_shape(data)
         n_total += test_N
         n_accept += n_gen
-        test_N = int(1.01 * n_total / (n_accept + 1) * (N - n_accept))
+        # never ask for an empty batch: with n_total == n_accept the estimate
+        # rounds down to 0 and the loop would not make progress any more
+        test_N = max(1, int(1.01 * n_total / (n_accept + 1) * (N - n_accept)))
         all_data.append(data)
 
     ret = data_merge(*all_data)
